@@ -149,7 +149,8 @@ func analyseSlashPackets(w *world.World, km *KeyModel, pre *slashPre, r *world.S
 			continue
 		}
 		switch tx.Action.Kind {
-		case world.KUnjail, world.KRemoveConsumer, world.KProviderDS, world.KDoubleVote, world.KMisbehaviour:
+		case world.KUnjail, world.KRemoveConsumer, world.KProviderDS, world.KDoubleVote, world.KMisbehaviour, world.KUndelegate, world.KRedelegate:
+			// these can jail, unjail or stop something in the middle of the block
 			strict = false
 		}
 	}
@@ -319,6 +320,9 @@ func (m *C08) After(w *world.World, a *world.Action, r *world.StepResult) *Viola
 					return violf(P, "bystander-changed", "block %d handled slash packets %s but validator %s changed: %+v -> %+v", r.Block.Height, fmtEvents(events), name, before.ValObs, after.ValObs)
 				}
 				continue
+			}
+			if culprit && staked[name] {
+				before.Tokens = after.Tokens // a delegation of this block changed the tokens too: the amount is not comparable
 			}
 			if !culprit {
 				if redDst[before.Operator] && !after.Tokens.IsNil() && !before.Tokens.IsNil() && after.Tokens.LTE(before.Tokens) &&
